@@ -1,14 +1,18 @@
 package props
 
 import (
+	"archive/tar"
 	"bytes"
+	"compress/gzip"
 	"crypto"
 	"encoding/json"
 	"fmt"
+	"io"
 	"strings"
 
 	"golang.org/x/crypto/openpgp"
 	"golang.org/x/crypto/openpgp/packet"
+	"pault.ag/go/debian/control"
 	"pault.ag/go/debian/deb"
 
 	"verif/internal/core"
@@ -39,13 +43,14 @@ func (c16) Batches(tier string, seed uint64) []core.Batch {
 
 func (c16) Mandatory(tier string) []string {
 	return []string{"flip:debian-binary", "flip:control", "flip:data", "flip:signature", "flip:lib-rejected", "untampered-verified", "decoy:control", "decoy:data", "decoy:same-name",
-		"decoy:before-genuine", "decoy:after-genuine", "role:absent", "keyring:unrelated", "keyring:empty", "keyring:signer+others", "codec:stored", "codec:gz",
+		"decoy:before-genuine", "decoy:after-genuine", "role:absent", "decoy:near-miss-name", "exposed-content-is-signed-content", "sequence:good-bad-empty-absent-good", "keyring:unrelated", "keyring:empty", "keyring:signer+others", "codec:stored", "codec:gz",
 		"role:origin", "role:maint", "role:archive", "ranges:load-subset-of-verify"}
 }
 
 type c16Case struct {
 	Members []model.ArMember `json:"members"`
 	Keyring []byte           `json:"keyring"`
+	Alt     []byte           `json:"alt,omitempty"` // a keyring without the signer, for check sequences on one loaded Deb
 	Role    string           `json:"role"`
 	Fault   string           `json:"fault"`
 	Repeat  int              `json:"repeat"`
@@ -174,11 +179,43 @@ func (p c16) run(c *core.C, cs c16Case) {
 				c.Failf("CheckDebsig(%s) failed on an untampered package signed by a keyring key: %v", cs.Role, verr)
 			}
 		}
+		if libOK {
+			// the verified members must be the ones whose content the loader exposed
+			if why := exposedDiffers(d, cs.Members); why != "" {
+				c.Failf("Load and CheckDebsig(%s) both succeeded (run %d of %d) but the loader exposed content that is not the signed members': %s; fault: %s; members: %s",
+					cs.Role, rep+1, reps, why, cs.Fault, memberNames(cs.Members))
+				d.Close()
+				return
+			}
+			c.Cover("exposed-content-is-signed-content")
+		}
+		if libOK && cs.Fault == "none" && len(cs.Alt) > 0 {
+			// a sequence of checks on the same loaded package
+			alt := parseKeyring(cs.Alt)
+			if _, err := d.CheckDebsig(alt, cs.Role); err == nil {
+				c.Failf("after a successful check, CheckDebsig(%s) with a keyring that lacks the signer succeeded on the same Deb", cs.Role)
+			}
+			if _, err := d.CheckDebsig(openpgp.EntityList{}, cs.Role); err == nil {
+				c.Failf("after a successful check, CheckDebsig(%s) with an empty keyring succeeded on the same Deb", cs.Role)
+			}
+			for _, other := range absentRoles(cs.Role) {
+				if _, err := d.CheckDebsig(keyring, other); err == nil {
+					c.Failf("CheckDebsig(%q) succeeded although the package only has a _gpg%s member", other, cs.Role)
+				}
+			}
+			if s2, err := d.CheckDebsig(keyring, cs.Role); err != nil || s2 == nil || s2.PrimaryKey.KeyId != wantID {
+				c.Failf("a second CheckDebsig(%s) with the right keyring on the same Deb failed: %v", cs.Role, err)
+			}
+			c.Cover("sequence:good-bad-empty-absent-good")
+		}
 		if libOK && cs.Fault == "none" {
 			c.Cover("untampered-verified")
 			// every member data range read while loading must be read while verifying
 			inLoad, inVerify := map[int]bool{}, map[int]bool{}
 			for i, rd := range cr.Reads {
+				if rd[1] <= 1 {
+					continue // the ar reader's one-byte "is the member complete" probe is not parsing
+				}
 				if m := memberAt(rd[0]); m >= 0 {
 					if i < loadReads {
 						inLoad[m] = true
@@ -197,6 +234,74 @@ func (p c16) run(c *core.C, cs c16Case) {
 		d.Close()
 	}
 	c.Nontrivial()
+}
+
+// absentRoles: role names that are not present, incl. proper prefixes and extensions of the present one.
+func absentRoles(role string) []string {
+	out := []string{"", role[:1], role[:len(role)-1], role + "x", strings.ToUpper(role)}
+	for _, r := range c16Roles {
+		if r != role {
+			out = append(out, r)
+		}
+	}
+	return out
+}
+
+// exposedDiffers compares what the loader exposed (control paragraph, data
+// listing, extensions) with the archive's single control.* / data.* member.
+func exposedDiffers(d *deb.Deb, members []model.ArMember) string {
+	var ctl, dat *model.ArMember
+	for i := range members {
+		switch {
+		case strings.HasPrefix(members[i].Name, "control."):
+			ctl = &members[i]
+		case strings.HasPrefix(members[i].Name, "data."):
+			dat = &members[i]
+		}
+	}
+	if ctl == nil || dat == nil {
+		return ""
+	}
+	open := func(m *model.ArMember) *tar.Reader {
+		var rd io.Reader = bytes.NewReader(m.Data)
+		if strings.HasSuffix(m.Name, ".gz") {
+			g, err := gzip.NewReader(rd)
+			if err != nil {
+				return nil
+			}
+			rd = g
+		}
+		return tar.NewReader(rd)
+	}
+	if strings.TrimPrefix(d.ControlExt, ".") != strings.TrimPrefix(ctl.Name, "control.") || strings.TrimPrefix(d.DataExt, ".") != strings.TrimPrefix(dat.Name, "data.") {
+		return fmt.Sprintf("ControlExt/DataExt %q/%q do not name the signed members %s/%s", d.ControlExt, d.DataExt, ctl.Name, dat.Name)
+	}
+	if tr := open(ctl); tr != nil {
+		for {
+			h, err := tr.Next()
+			if err != nil {
+				break
+			}
+			if strings.TrimPrefix(h.Name, "./") == "control" {
+				b, _ := io.ReadAll(tr)
+				ref, ok := model.RefRead(string(b))
+				if ok && len(ref) == 1 {
+					if diff := diffParas([]control.Paragraph{d.Control.Paragraph}, ref); diff != "" {
+						return "control fields differ from the signed control member: " + diff
+					}
+				}
+				break
+			}
+		}
+	}
+	if tr := open(dat); tr != nil && d.Data != nil {
+		want, err1 := listTar(tr)
+		got, err2 := listTar(d.Data)
+		if err1 == nil && (err2 != nil || fmt.Sprint(got) != fmt.Sprint(want)) {
+			return fmt.Sprintf("the payload stream lists %v (err %v), the signed data member holds %v", got, err2, want)
+		}
+	}
+	return ""
 }
 
 func (p c16) emit(t *core.T, cs c16Case, tags ...string) {
@@ -225,7 +330,7 @@ func (p c16) RunBatch(t *core.T, b core.Batch) {
 			kr := serializeKeyring([]*openpgp.Entity{keys[signer]})
 			codec := map[bool]string{true: "codec:gz", false: "codec:stored"}[gz]
 			if b.Arg == 0 {
-				p.emit(t, c16Case{Members: members, Keyring: kr, Role: role, Fault: "none", Repeat: 3}, codec, "role:"+role)
+				p.emit(t, c16Case{Members: members, Keyring: kr, Alt: serializeKeyring([]*openpgp.Entity{keys[2], keys[1-signer]}), Role: role, Fault: "none", Repeat: 3}, codec, "role:"+role)
 			}
 			idx := 0
 			for mi, m := range members {
@@ -260,7 +365,10 @@ func (p c16) RunBatch(t *core.T, b core.Batch) {
 			dataTar := writeTar([]tarEnt{{Name: "./evil", Type: '0', Data: r.Bytes(40), Mode: 0o755}})
 			dataGz, _ := compress("gz", dataTar)
 			decoys := []model.ArMember{{Name: "control.tar", Data: altTar}, {Name: "control.tar.gz", Data: altGz}, {Name: "control.x", Data: altTar},
-				{Name: "data.tar", Data: dataTar}, {Name: "data.tar.gz", Data: dataGz}}
+				{Name: "data.tar", Data: dataTar}, {Name: "data.tar.gz", Data: dataGz},
+				// near-miss names: not control.*/data.* members, so the package stays valid - but they must never be exposed
+				{Name: "data-old.tar", Data: dataTar}, {Name: "database.tar.gz", Data: dataGz}, {Name: "datax.tar", Data: dataTar},
+				{Name: "control-old.tar", Data: altTar}, {Name: "controlx.tar.gz", Data: altGz}, {Name: "xcontrol.tar", Data: altTar}, {Name: "xdata.tar", Data: dataTar}}
 			dc := decoys[r.Intn(len(decoys))]
 			dc.Mode = "100644"
 			tag := "decoy:control"
@@ -280,7 +388,12 @@ func (p c16) RunBatch(t *core.T, b core.Batch) {
 			if pos <= 1 || (strings.HasPrefix(dc.Name, "data") && pos <= 2) {
 				where = "decoy:before-genuine"
 			}
-			p.emit(t, c16Case{Members: mm, Keyring: kr, Role: role, Fault: "decoy:" + dc.Name + fmt.Sprintf("@%d", pos), Repeat: 40}, tag, where)
+			fault := "decoy:" + dc.Name + fmt.Sprintf("@%d", pos)
+			if !strings.HasPrefix(dc.Name, "control.") && !strings.HasPrefix(dc.Name, "data.") {
+				// an unrelated extra member: verification may succeed, exposure of its content may not
+				fault, tag = "none", "decoy:near-miss-name"
+			}
+			p.emit(t, c16Case{Members: mm, Keyring: kr, Role: role, Fault: fault, Repeat: 40}, tag, where)
 		}
 	case "matrix":
 		r := t.Rand("matrix", fmt.Sprint(b.Arg))
@@ -289,15 +402,16 @@ func (p c16) RunBatch(t *core.T, b core.Batch) {
 			signer := r.Intn(2)
 			members := signedPackage(r, t.Tier, role, signer, r.Bool())
 			switch i % 5 {
-			case 0: // absent role
-				other := c16Roles[(i+1)%3]
+			case 0: // absent role (also proper prefixes / extensions of the present one)
+				ar := absentRoles(role)
+				other := ar[(i/5)%len(ar)]
 				p.emit(t, c16Case{Members: members, Keyring: serializeKeyring([]*openpgp.Entity{keys[signer]}), Role: other, Fault: "role-absent"}, "role:absent")
 			case 1:
 				p.emit(t, c16Case{Members: members, Keyring: serializeKeyring([]*openpgp.Entity{keys[2], keys[1-signer]}), Role: role, Fault: "keyring-unrelated"}, "keyring:unrelated")
 			case 2:
 				p.emit(t, c16Case{Members: members, Keyring: nil, Role: role, Fault: "keyring-empty"}, "keyring:empty")
 			case 3:
-				p.emit(t, c16Case{Members: members, Keyring: serializeKeyring([]*openpgp.Entity{keys[2], keys[signer], keys[1-signer]}), Role: role, Fault: "none"}, "keyring:signer+others", "role:"+role)
+				p.emit(t, c16Case{Members: members, Keyring: serializeKeyring([]*openpgp.Entity{keys[2], keys[signer], keys[1-signer]}), Alt: serializeKeyring([]*openpgp.Entity{keys[2]}), Role: role, Fault: "none"}, "keyring:signer+others", "role:"+role)
 			default: // signature of another package
 				other := signedPackage(r, t.Tier, role, signer, false)
 				mm := append([]model.ArMember{}, members...)
